@@ -43,9 +43,17 @@ def closed_form(case):
     from vlib import gen, solve, oracles
 
     rng = gen.rng_for(case["seed"], "C05a", case["idx"])
-    St, _ = gen.draw_setup(rng, halo_classes=("zero",), profile_kinds=("constant",), mode_classes=("full", "trunc", "over"), even=bool(rng.random() < 0.8))
+    St, _ = gen.draw_setup(rng, halo_classes=("zero",), profile_kinds=("constant",), mode_classes=("full", "trunc", "over", "mixed"), even=bool(rng.random() < 0.8))
     if St is None:
         return {"evals": 0, "nontrivial": False, "skipped": "no draw inside the conditioning guard"}
+    if case["idx"] % 6 == 5:
+        # very strongly damped components (a fine grid under a tall column: the highest retained component decays by e^-700 .. e^-1500,
+        # below the range of double precision): the closed-form branch has no conditioning limit, such a component is simply zero aloft
+        zz_ = np.asarray(St["z"], dtype=float)
+        kx_, ky_, _, _ = gen.wavenumbers(St["nx"], St["ny"], St["dx"], St["dy"], 0, 0, St["modes"])
+        g_ = gen.growth(zz_, St["profiles"], kx_, ky_)
+        s_ = float(rng.uniform(750.0, 1500.0)) / max(g_, 1e-9)
+        St = dict(St, z=zz_[0] + (zz_ - zz_[0]) * s_, G=0.0)
     nx, ny, dx, dy = St["nx"], St["ny"], St["dx"], St["dy"]
     z = St["z"]
     nz = len(z)
